@@ -272,6 +272,14 @@ func (c *conn) handleMutate(in *inEnvelope) error {
 	c.mu.Lock()
 	defer c.mu.Unlock()
 
+	// A mutation is tracked in subscriptions under its id until it has run; it
+	// must not replace a live subscription (or mutation) with the same id,
+	// whose rerunner could then never be stopped.
+	if _, ok := c.subscriptions[id]; ok {
+		verifConn("mut.reject", id, nil)
+		return NewSafeError("duplicate subscription")
+	}
+
 	tags := map[string]string{"url": c.url, "query": mutate.Query, "queryVariables": mustMarshalJson(mutate.Variables), "id": id}
 
 	query, err := Parse(mutate.Query, mutate.Variables)
